@@ -24,6 +24,7 @@
 #include <string>
 #include <unordered_set>
 #include <utility>
+#include <iterator>
 #include <vector>
 
 namespace
@@ -351,6 +352,47 @@ struct runner
       {
         fail("pre_order", "root " + std::to_string(i) + " visits " + std::to_string(b.size()) + " nodes, want " + std::to_string(a.size()));
         return;
+      }
+      // pre_order iterators are forward iterators: a COPY taken at any position enumerates the rest on its own, and the
+      // iterator it was copied from is not disturbed by that (saved positions, multi-pass algorithms)
+      {
+        auto const range = fcppt::container::tree::make_pre_order(std::as_const(t));
+        auto it = range.begin();
+        auto const end = range.end();
+        std::size_t k = 0;
+        std::vector<decltype(it)> saved;
+        for (; it != end && k <= a.size(); ++it, ++k)
+        {
+          saved.push_back(it);
+          auto copy = it;
+          std::size_t j = k;
+          for (; copy != end && j <= a.size(); ++copy, ++j)
+            if (j >= a.size() || copy->value() != a[j])
+              break;
+          if (copy != end || j != a.size())
+          {
+            fail("pre_order/copied-iterator", "root " + std::to_string(i) + ": a copy taken at position " + std::to_string(k) + " stops or differs at position " + std::to_string(j) + " of " + std::to_string(a.size()) + "; tree=" + ser(model[i]));
+            return;
+          }
+          if (k >= a.size() || it->value() != a[k])
+          {
+            fail("pre_order/original-after-copy-walk", "root " + std::to_string(i) + ": the iterator a copy was taken from is disturbed at position " + std::to_string(k) + "; tree=" + ser(model[i]));
+            return;
+          }
+          VF_COUNT("pre_order/copied-iterator-walks");
+        }
+        if (k != a.size())
+        {
+          fail("pre_order/original-after-copy-walk", "root " + std::to_string(i) + ": visits " + std::to_string(k) + " nodes while copies are walked, want " + std::to_string(a.size()));
+          return;
+        }
+        // the saved positions still denote their nodes after everything else was advanced
+        for (std::size_t q = 0; q < saved.size(); ++q)
+          if (saved[q]->value() != a[q] || (q + 1 < saved.size() && std::next(saved[q]) != saved[q + 1]))
+          {
+            fail("pre_order/saved-position", "root " + std::to_string(i) + ": saved position " + std::to_string(q) + " moved; tree=" + ser(model[i]));
+            return;
+          }
       }
       verify_node_functions(i);
       if (!ok)
